@@ -2215,8 +2215,12 @@ class SQLCompiler(Compiled):
 
                 if not parameter.literal_execute:
                     parameters.update(to_update)
-                    if parameter.type._is_tuple_type:
-                        assert values is not None
+                    if parameter.type._is_tuple_type and values is None:
+                        # second occurrence of the same tuple parameter in a
+                        # positional statement; processors were set up by
+                        # the first one
+                        pass
+                    elif parameter.type._is_tuple_type:
                         new_processors.update(
                             (
                                 "%s_%s_%s" % (name, i, j),
